@@ -38,9 +38,60 @@ SF = "StarkField for BaseElement"
 # trait defaults of math/src/field/traits.rs instantiated per field (C07 round 2)
 GROU = dict(kind="fn", name="get_root_of_unity", header="trait StarkField*", role="free", file="math/src/field/traits.rs")
 
+
+# ---- C07 coverage round: integer/bool conversions, conjugate, *_assign, base_element -------------------------
+def _assign_guards(path, semi=("sub",)):
+    sym = {"add": "+", "sub": "-", "mul": "*", "div": "/"}
+    return [(path, f"fn {o}_assign(&mut self, rhs: Self) {{ *self = *self {sym[o]} rhs{';' if o in semi else ''} }}") for o in sym]
+
+
+def _assign_raw(pfx, fuelled_div):
+    out = [f"(* `*self = *self op rhs` (guarded source text): the compound assignment IS the binary operator *)"]
+    for o in ("add", "sub", "mul"):
+        out.append(f"Definition {pfx}_{o}_assign (self rhs : Z) : Z := {pfx}_{o} self rhs.")
+    if fuelled_div:
+        out.append(f"Definition {pfx}_div_assign (fuel : nat) (self rhs : Z) : option Z := {pfx}_div fuel self rhs.")
+    else:
+        out.append(f"Definition {pfx}_div_assign (self rhs : Z) : Z := {pfx}_div self rhs.")
+    return "\n".join(out)
+
+
+def _base_element_raw(pfx):
+    return (f"(* fn base_element(&self, i: usize) -> Self::BaseField {{ match i {{ 0 => *self, _ => panic!(..) }} }} (guarded) *)\n"
+            f"Definition {pfx}_base_element (self : Z) (i : Z) : option Z := if Z.eqb i 0 then Some self else None.")
+
+
+_BASE_ELEMENT_GUARD = "fn base_element(&self, i: usize) -> Self::BaseField { match i { 0 => *self, _ => panic!(\"element index must be 0, but was {i}\"), } }"
+
+_F64_CONV_RAW = """(* TryFrom<usize>: `match u64::try_from(value) { Err(_) => Err(..), Ok(v) => v.try_into() }` (guarded): the usize
+   must fit in a u64 (always, on the 64-bit targets of the harness), then TryFrom<u64> *)
+Definition f64_try_from_usize (value : Z) : option Z :=
+  if in_u 64 value then f64_try_from_u64 value else None.
+(* TryFrom<BaseElement> for bool: `match value.as_int() { 0 => Ok(false), 1 => Ok(true), v => Err(..) }` (guarded) *)
+Definition f64_to_bool (value : Z) : option bool :=
+  if Z.eqb (f64_as_int value) 0 then Some false else if Z.eqb (f64_as_int value) 1 then Some true else None."""
+
+_F64_CONV_GUARDS = [
+    ("math/src/field/f64/mod.rs", "fn try_from(value: usize) -> Result<Self, Self::Error> { match u64::try_from(value) { Err(_) => Err(format!(\"invalid field element: value {value} does not fit in a u64\")), Ok(v) => v.try_into(), } }"),
+    ("math/src/field/f64/mod.rs", "impl TryFrom<BaseElement> for bool { type Error = String; fn try_from(value: BaseElement) -> Result<Self, Self::Error> { match value.as_int() { 0 => Ok(false), 1 => Ok(true), v => Err(format!(\"Field element does not represent a boolean, got {}\", v)), } } }"),
+]
+
+
+def _conv(pfx, from_ints, to_ints=(), extra=()):
+    items = [fn("conjugate", FE, out=f"{pfx}_conjugate")]
+    for t in from_ints:
+        items.append(fn("from", f"From < {t} > for BaseElement", out=f"{pfx}_from_{t}", **{"as": f"from_{t}"}))
+    for t, kind in to_ints:
+        n = int(t[1:])
+        hdr = ("TryFrom" if kind == "try" else "From") + f" < BaseElement > for {t}"
+        items.append(fn("try_from" if kind == "try" else "from", hdr, out=f"{pfx}_to_{t}", self_ty=U(n), **{"as": f"to_{t}"}))
+    return items + list(extra)
+
 F64 = dict(
     module="F64", prefix="f64", file="math/src/field/f64/mod.rs", inner=U(64), posint=U(64),
-    guards=TRAIT_GUARDS, defaults={"square": _sq, "cube": _cube},
+    guards=TRAIT_GUARDS + _assign_guards("math/src/field/f64/mod.rs") + _F64_CONV_GUARDS
+           + [("math/src/field/f64/mod.rs", _BASE_ELEMENT_GUARD)],
+    defaults={"square": _sq, "cube": _cube},
     items=[
         const("M"), const("R2"),
         fn("mont_red_cst", role="free"),
@@ -68,6 +119,10 @@ F64 = dict(
         fn("try_from", "TryFrom < u64 > for BaseElement", out="f64_try_from_u64", **{"as": "try_from_u64"}),
         fn("try_from", "TryFrom < u128 > for BaseElement", out="f64_try_from_u128", **{"as": "try_from_u128"}),
         fn("try_from", "TryFrom < [ u8 ; 8 ] > for BaseElement", out="f64_try_from_bytes", **{"as": "try_from_bytes"}),
+        # coverage round
+        *_conv("f64", ["bool", "u8", "u16", "u32"], [("u8", "try"), ("u16", "try"), ("u32", "try"), ("u64", "from"), ("u128", "from")],
+               [fn("as_int", SF, out="f64_sf_as_int", **{"as": "sf_as_int"}), fn("mont_red_var", role="free"),
+                dict(raw=_F64_CONV_RAW), dict(raw=_assign_raw("f64", False)), dict(raw=_base_element_raw("f64"))]),
         fn("mul", "ExtensibleField < 2 > for BaseElement", role="ring", out="f64_ext2_mul"),
         fn("square", "ExtensibleField < 2 > for BaseElement", role="ring", out="f64_ext2_square"),
         fn("mul_base", "ExtensibleField < 2 > for BaseElement", role="ring", out="f64_ext2_mul_base"),
@@ -81,7 +136,8 @@ F64 = dict(
 
 F62 = dict(
     module="F62", prefix="f62", file="math/src/field/f62/mod.rs", inner=U(64), posint=U(64),
-    guards=TRAIT_GUARDS, defaults={"square": _sq, "cube": _cube},
+    guards=TRAIT_GUARDS + _assign_guards("math/src/field/f62/mod.rs") + [("math/src/field/f62/mod.rs", _BASE_ELEMENT_GUARD)],
+    defaults={"square": _sq, "cube": _cube},
     items=[
         const("M"), const("R2"), const("R3"), const("U"), const("G"),
         fn("add", role="free", out="f62_fn_add"),
@@ -107,6 +163,10 @@ F62 = dict(
         dict(GROU, out="f62_get_root_of_unity"),
         fn("try_from", "TryFrom < u64 > for BaseElement", out="f62_try_from_u64", **{"as": "try_from_u64"}),
         fn("try_from", "TryFrom < u128 > for BaseElement", out="f62_try_from_u128", **{"as": "try_from_u128"}),
+        # coverage round
+        *_conv("f62", ["u8", "u16", "u32"], [("u64", "from"), ("u128", "from")],
+               [fn("try_from", "TryFrom < [ u8 ; 8 ] > for BaseElement", out="f62_try_from_bytes", **{"as": "try_from_bytes"}),
+                dict(raw=_assign_raw("f62", True)), dict(raw=_base_element_raw("f62"))]),
         fn("mul", "ExtensibleField < 2 > for BaseElement", role="ring", out="f62_ext2_mul"),
         fn("mul_base", "ExtensibleField < 2 > for BaseElement", role="ring", out="f62_ext2_mul_base"),
         fn("frobenius", "ExtensibleField < 2 > for BaseElement", role="ring", out="f62_ext2_frobenius"),
@@ -120,7 +180,8 @@ EXPV = dict(kind="fn", name="exp_vartime", header="trait FieldElement*", role="m
 
 F128 = dict(
     module="F128", prefix="f128", file="math/src/field/f128/mod.rs", inner=U(128), posint=U(128),
-    guards=TRAIT_GUARDS + [("math/src/field/traits.rs", "fn exp(self, power: Self::PositiveInteger) -> Self { self.exp_vartime(power) }"),
+    guards=TRAIT_GUARDS + _assign_guards("math/src/field/f128/mod.rs") + [("math/src/field/f128/mod.rs", _BASE_ELEMENT_GUARD)]
+           + [("math/src/field/traits.rs", "fn exp(self, power: Self::PositiveInteger) -> Self { self.exp_vartime(power) }"),
                            ("math/src/field/f128/mod.rs", "#[derive(Copy, Clone, PartialEq, Eq, Default)] #[cfg_attr(feature = \"serde\", derive(Deserialize, Serialize))] #[cfg_attr(feature = \"serde\", serde(transparent))] pub struct BaseElement(u128);")],
     defaults={"square": _sq, "cube": _cube, "double": _dbl},
     items=[
@@ -152,6 +213,9 @@ F128 = dict(
         const("TWO_ADICITY", SF), const("TWO_ADIC_ROOT_OF_UNITY", SF),
         dict(GROU, out="f128_get_root_of_unity"),
         fn("try_from", "TryFrom < u128 > for BaseElement", out="f128_try_from_u128", **{"as": "try_from_u128"}),
+        # coverage round
+        *_conv("f128", ["u8", "u16", "u32", "u64"], [],
+               [dict(raw=_assign_raw("f128", True)), dict(raw=_base_element_raw("f128"))]),
         fn("mul", "ExtensibleField < 2 > for BaseElement", role="ring", out="f128_ext2_mul"),
         fn("mul_base", "ExtensibleField < 2 > for BaseElement", role="ring", out="f128_ext2_mul_base"),
         fn("frobenius", "ExtensibleField < 2 > for BaseElement", role="ring", out="f128_ext2_frobenius"),
